@@ -302,6 +302,8 @@ def build_package_tree(rng, root, seed):
     """random tree; returns (package dir, markers reachable through an unbroken __init__ chain, listing)"""
     exp = set()
     cnt = [0]
+    broken = [0]
+    build_package_tree.last_broken = broken
 
     def modsrc(marker):
         return 'def f():\n    """\n    Example:\n        >>> print("%s")\n        %s\n    """\n' % (marker, marker)
@@ -327,6 +329,15 @@ def build_package_tree(rng, root, seed):
         if rng.random() < 0.3:
             with open(os.path.join(d, 'notes.txt'), 'w') as f:
                 f.write('>>> print("TXT")\nTXT\n')
+        if rng.random() < 0.25:
+            # a module that does not parse (a broken escape in a non-raw docstring, or plain bad syntax): a warning,
+            # no doctest of its own, and nothing of its neighbours under its name
+            cnt[0] += 1
+            bad = rng.choice(['def g():\n    """\n    C:\\N{NOT A NAME}\n    >>> print("UBROKEN%d")\n    """\n' % cnt[0],
+                              'def g():\n    """\n    >>> print("UBROKEN%d")\n    """\nx = = 1\n' % cnt[0]])
+            with open(os.path.join(d, rng.choice(['broken.py', 'zbroken.py', 'mod_z_broken.py'])), 'w') as f:
+                f.write(bad)
+            broken[0] += 1
         if rng.random() < 0.2:
             os.mkdir(os.path.join(d, 'data'))
             with open(os.path.join(d, 'data', 'stray.py'), 'w') as f:
